@@ -148,7 +148,7 @@ def cmd_table():
         own = m.get('caught_by_own_property_check')
         others = [p for p in m.get('caught_by', []) if p != m['property']]
         print('| %s | %s | %s | %s | %s |' % (n, m['property'], (m.get('needs') or '').replace('|', '/').replace('\n', ' ')[:160],
-                                              'yes' if own else ('not claimed (outside the asserted domain, see meta.json)' if m.get('not_claimed') else ('NO' if own is not None else '?')), ' '.join(others)))
+                                              'yes' if own else ('obsolete (harmless since fix D12, see meta.json)' if m.get('obsolete') else ('not claimed (outside the asserted domain, see meta.json)' if m.get('not_claimed') else ('NO' if own is not None else '?'))), ' '.join(others)))
 
 
 if __name__ == '__main__':
